@@ -83,7 +83,11 @@ class NumpyQuantity(Generic[MagnitudeT], PlainQuantity[MagnitudeT]):
 
         # Set input units if needed
         if func.__name__ in set_units_ufuncs:
-            self.__ito_if_needed(set_units_ufuncs[func.__name__][0])
+            to_units = set_units_ufuncs[func.__name__][0]
+            if not (self.unitless and to_units == "radian"):
+                # work on a converted copy: the method is not an in-place
+                # operation and must leave the quantity it is called on alone
+                func = getattr(self.to(to_units)._magnitude, func.__name__)
 
         value = func(*args, **kwargs)
 
